@@ -166,7 +166,11 @@ class Scenario:
             return data == xyzpy.combo_runner(self.fn, self.combos, verbosity=0)
         if self.kind == "Sampler":
             rows = sorted((int(r.a), int(r.b), int(r.out)) for r in data.itertuples())
-            return len(rows) == 6 and all(o == 10 * a + b for a, b, o in rows)
+            # ... and the accumulated table (on disk and in memory) holds exactly these rows, once
+            table = xyzpy.manage.load_df(self.farmer.data_name)
+            trows = sorted((int(r.a), int(r.b), int(r.out)) for r in table.itertuples())
+            mrows = sorted((int(r.a), int(r.b), int(r.out)) for r in self.farmer.full_df.itertuples())
+            return len(rows) == 6 and all(o == 10 * a + b for a, b, o in rows) and trows == rows and mrows == rows
         direct = xyzpy.Runner(self.fn, var_names="out").run_combos(self.combos, verbosity=0)
         return bool(direct.broadcast_equals(data))
 
